@@ -544,6 +544,16 @@ func (sc *SizeCalculator) SplitToSize(text string, boundaries []Boundary) []stri
 
 		// Find split point using max limit (not target) to ensure chunks fit
 		splitPos := sc.FindSplitPointAt(remaining, boundaries, sc.config.Max.Value, sc.config.Max.Unit)
+
+		// FindSplitPointAt may return a position past the requested one (it accepts a
+		// sentence end up to 100 bytes later). For a hard character/token maximum use
+		// the last break opportunity inside the limit instead.
+		if hard := sc.hardMaxBytes(); hard > 0 && hard < len(remaining) && splitPos > hard {
+			if i := strings.LastIndexAny(remaining[:hard+1], " \n"); i > 0 {
+				splitPos = i + 1
+			}
+		}
+
 		if splitPos <= 0 || splitPos >= len(remaining) {
 			// Can't split further, add remaining as-is
 			chunks = append(chunks, remaining)
@@ -561,6 +571,25 @@ func (sc *SizeCalculator) SplitToSize(text string, boundaries []Boundary) []stri
 	}
 
 	return chunks
+}
+
+// hardMaxBytes returns the hard maximum expressed in bytes of text when it is given
+// in characters or estimated tokens, and 0 otherwise.
+func (sc *SizeCalculator) hardMaxBytes() int {
+	if sc.config.Max.Type != LimitTypeHard {
+		return 0
+	}
+	switch sc.config.Max.Unit {
+	case SizeUnitCharacters:
+		return sc.config.Max.Value
+	case SizeUnitTokens:
+		ratio := sc.config.TokensPerChar
+		if ratio <= 0 {
+			ratio = 0.25
+		}
+		return int(float64(sc.config.Max.Value) / ratio)
+	}
+	return 0
 }
 
 // adjustBoundaryPositions adjusts boundary positions after a split
